@@ -77,6 +77,13 @@ def main():
                 continue
             jobs.append(("benign", n, pth))
     base = work(("base", "base", None, 0))[3]
+    # the unchanged tree itself must be clean: only listed known findings may appear
+    known = {k["key"] for k in json.load(open(os.path.join(VERIF, "known_findings.json")))["findings"] if k.get("status") == "known"}
+    dirty = {p: [k for k in ks if k not in known] for p, ks in base.items()}
+    dirty = {p: ks for p, ks in dirty.items() if ks}
+    if dirty:
+        print("BASE TREE NOT CLEAN: %s" % dirty)
+        return 2
     jobs = [(k, n, p, 1 + i % j) for i, (k, n, p) in enumerate(jobs)]
     bad = 0
     with ProcessPoolExecutor(max_workers=j) as ex:
